@@ -39,7 +39,7 @@ VALUES = {
     "max_preconditioner_dim": [1, 2, 1024, 0, -1],
     "precondition_frequency": [1, 2, 5, 0, -1],
     "start_preconditioning_step": [-1, 1, 2, 5, 7, 0, -2],
-    "inv_root_override": [0, 1, 4, [1, 2], [0, 3], [], -1, [1, -1]],
+    "inv_root_override": [0, 1, 4, [2], [1, 2], [0, 3], [], -1, [1, -1]],
     "ignored_dims": [[], [0], [1, 0]],
 }
 BASELINES = [
@@ -190,7 +190,31 @@ def check_configs(torch):
     class MyPre(PreconditionerConfig):
         amortized_computation_config: object = None
 
-    for name, kw in (("grafting", {"grafting_config": MyGraft()}), ("distributed", {"distributed_config": MyDist()}), ("preconditioner", {"preconditioner_config": MyPre(amortized_computation_config=DefaultEigenConfig)})):
+    from distributed_shampoo.shampoo_types import DDPShampooConfig, SGDGraftingConfig, ShampooPreconditionerConfig
+
+    @dataclass(kw_only=True)
+    class MyAdam(AdamGraftingConfig):
+        pass
+
+    @dataclass(kw_only=True)
+    class MyRMS(RMSpropGraftingConfig):
+        pass
+
+    @dataclass(kw_only=True)
+    class MyAda(AdaGradGraftingConfig):
+        pass
+
+    @dataclass
+    class MySGD(SGDGraftingConfig):
+        pass
+
+    @dataclass(kw_only=True)
+    class MyShampooPre(ShampooPreconditionerConfig):
+        pass
+
+    subclassed = [("grafting-subclass-adam", {"grafting_config": MyAdam()}), ("grafting-subclass-rmsprop", {"grafting_config": MyRMS()}), ("grafting-subclass-adagrad", {"grafting_config": MyAda()}),
+                  ("grafting-subclass-sgd", {"grafting_config": MySGD()}), ("preconditioner-subclass", {"preconditioner_config": MyShampooPre()})]
+    for name, kw in [("grafting", {"grafting_config": MyGraft()}), ("distributed", {"distributed_config": MyDist()}), ("preconditioner", {"preconditioner_config": MyPre(amortized_computation_config=DefaultEigenConfig)})] + subclassed:
         for bad_lr in (False, True):
             n += 1
             p = torch.nn.Parameter(torch.ones(2, 3))
